@@ -200,6 +200,7 @@ func (e *Exec) bitLen(x *Term) *Term {
 		}
 	}
 	l := ts.FreshBounded("bitlen", lLo, lHi)
+	e.FreshDefs[l.Name] = &FreshDef{Kind: "bitlen", Args: []*Term{x}}
 	ax := e.absTerm(x)
 	ths := DefaultBitLenThresholds
 	if e.BitLenDense > 0 {
@@ -278,6 +279,21 @@ func init() {
 		return ret1(st, e.TS.ModC(e.TS.DivC(x, sh), big.NewInt(2)))
 	})
 	R("(*math/big.Int).Lsh", func(e *Exec, st *State, fn *ssa.Function, args []Value, depth int) []Outcome {
+		cnt, _ := args[2].(*Term)
+		if cnt != nil && cnt.Op != OpConst {
+			// a symbolic count with few possible values: fork on them
+			sts, vals := e.forkOnValues(st, cnt, 8, "Lsh count")
+			var outs []Outcome
+			for i, s2 := range sts {
+				if !vals[i].IsInt64() || vals[i].Int64() > 1<<20 {
+					unsupported("huge Lsh count")
+				}
+				x := e.bigGet(s2, args[1])
+				e.bigSet(s2, args[0], e.TS.Mul(x, e.TS.Int(new(big.Int).Lsh(big.NewInt(1), uint(vals[i].Int64())))))
+				outs = append(outs, Outcome{Kind: OutReturn, St: s2, Ret: args[0]})
+			}
+			return outs
+		}
 		x := e.bigGet(st, args[1])
 		n := e.concreteInt(args[2], "Lsh count")
 		e.bigSet(st, args[0], e.TS.Mul(x, e.TS.Int(new(big.Int).Lsh(big.NewInt(1), uint(n)))))
